@@ -58,6 +58,14 @@ class RigWorld(World):
                 same = [c for c in pool if any(c.rank == o.rank for o in others)]
                 if same:
                     pick = same[ch.pick('rig.card', len(same))]
+            elif kind == 'hole' and r == 3 and not badugi:
+                # suited hands that tie: a card of the suit the player already holds whose rank another player holds too
+                # (single-suited lows and flushes next to equal ranks elsewhere)
+                own = [c for c in st.hole_cards[player_index] if c] + out
+                others = [c for i in range(st.player_count) if i != player_index for c in st.hole_cards[i] if c]
+                same = [c for c in pool if own and c.suit == own[0].suit and any(c.rank == o.rank for o in others)]
+                if same:
+                    pick = same[ch.pick('rig.card', len(same))]
             elif kind == 'hole' and badugi and r == 2:
                 # small badugis: a card blocked by the player's own cards (same suit or same rank), so that the best
                 # two- and three-card subsets have to be found among several candidates
@@ -295,10 +303,12 @@ class SettleMonitor(Monitor):
 
 def run(ch, ctx):
     bias = dict(BIAS)
+    badugi_focus = False
     if ch.chance('c02.hilo', 2, 5):
         bias['variants'] = HILO
     elif ch.chance('c02.badugi', 1, 6):
         bias['variants'] = ('FB',)
+        badugi_focus = True
         ctx.count('badugi_focus_runs')
     cfg = gen_config(ch, bias)
     if cfg['chip'] == 'int':
@@ -311,7 +321,9 @@ def run(ch, ctx):
         dealer = ch.choice('c02.dealer', ('rigged', 'rigged', 'engine', 'explicit'))
         world = RigWorld(ch, ctx, cfg, [mon], run_key=run_key_of(ch), dealer=dealer,
                          profile=ch.choice('c02.profile', ('shover', 'aggressive', 'aggressive', 'balanced', 'passive')),
-                         muck_num=1 if ch.chance('c02.mucks', 1, 4) else 0, partial_show=ch.chance('c02.partial', 1, 4))
+                         muck_num=1 if ch.chance('c02.mucks', 1, 4) else 0, partial_show=ch.chance('c02.partial', 1, 4),
+                         force_show=badugi_focus and ch.chance('c02.table_all', 1, 2))     # everybody tables: a hand the
+        #                  engine cannot evaluate then shows in the settlement instead of being mucked away (C12's business)
         world.run()
     except (Violation, EngineCrash, Stuck):
         if world is not None:
